@@ -36,6 +36,7 @@ import (
 	"strconv"
 	"strings"
 	"sync"
+	"sync/atomic"
 	"time"
 
 	"github.com/go-logr/logr"
@@ -96,7 +97,7 @@ var (
 	bg    = context.Background()
 
 	// how long the driver waits for a replayed deletion to reach the gate
-	expectWait = 40 * time.Second  // when the reconcile's own reads say one was started
+	expectWait = 40 * time.Second        // when the reconcile's own reads say one was started
 	quietWait  = 2600 * time.Millisecond // when they say none was (a mutant may disagree)
 )
 
@@ -303,11 +304,11 @@ type world struct {
 	proc  *process
 	procs int
 
-	mu     sync.Mutex
+	mu       sync.Mutex
 	held     []*held
 	arrivedN int // deferred Deletes that ever reached the gate
 	arrive   chan struct{}
-	closed bool
+	closed   bool
 
 	al         *replay.Aligner
 	tail       []replay.Entry // last block only: the environment steps after the scenario's last call
@@ -521,7 +522,7 @@ func (w *world) request(o *unstructured.Unstructured, op admissionv1.Operation, 
 		UID:       "req",
 		Kind:      metav1.GroupVersionKind{Group: gvk.Group, Version: gvk.Version, Kind: gvk.Kind},
 		Resource:  metav1.GroupVersionResource{Group: gvk.Group, Version: gvk.Version, Resource: strings.ToLower(gvk.Kind) + "s"},
-		Name:      o.GetName(),
+		Name:      collectionName(o.GetName()),
 		Operation: op,
 		Options:   runtime.RawExtension{Raw: rawOpts},
 		DryRun:    ptr.To(dry),
@@ -1678,4 +1679,16 @@ func main() {
 	if err := scen.WriteJSON(*sumPath, sum); err != nil {
 		fail(err)
 	}
+}
+
+// collectionName: every other admission request is shaped the way kube-apiserver shapes the per-item requests of a
+// collection delete (kubectl delete <kind> --all): oldObject is the item, but the request's name is EMPTY. Whoever looks
+// the object up by the request's name instead of the object's finds nothing (added after the seeded change C19-m7 was missed).
+var admissionSeq atomic.Int64
+
+func collectionName(name string) string {
+	if admissionSeq.Add(1)%2 == 0 {
+		return ""
+	}
+	return name
 }
